@@ -15,6 +15,7 @@ CONSTANTS
   MaxFail = 1
   AllowSkip = TRUE
   AllowStop = TRUE
+  AllowBail = FALSE
 INVARIANTS TypeOK Asserts Ownership OnceInOrder Deterministic ErrorsAccountedR WaitSane
 PROPERTY Termination
 CHECK_DEADLOCK TRUE
